@@ -1,6 +1,7 @@
 package main
 
 import (
+	"os"
 	"fmt"
 	"go/constant"
 	"go/token"
@@ -558,6 +559,14 @@ func (fr *Frame) exec(st *State, g *Term) []retInfo {
 			bst = c.joinStates(guards, sts)
 			// havoc what the loop body may write
 			mods := fr.loopMods(b)
+			if os.Getenv("GOVC_DEBUG_MODS") != "" {
+				var ms []string
+				for m := range mods {
+					ms = append(ms, m)
+				}
+				sort.Strings(ms)
+				fmt.Fprintf(os.Stderr, "loop %d of %s writes: %v\n", ord, fn.Name(), ms)
+			}
 			c.noNote++
 			if mods == nil || mods["*"] {
 				c.havocAll(bst)
@@ -567,10 +576,23 @@ func (fr *Frame) exec(st *State, g *Term) []retInfo {
 					ms = append(ms, m)
 				}
 				sort.Strings(ms)
+				// the allocation frontier when the loop is entered, and the objects this function itself has allocated so far
+				allocHead := c.heapGet(bst, c.allocName())
+				var ownRefs []string
+				for r := range c.allocOf {
+					ownRefs = append(ownRefs, r)
+				}
+				sort.Strings(ownRefs)
+				notOwn := ""
+				for _, r := range ownRefs {
+					notOwn += " (not (= fr " + r + "))"
+				}
 				for _, m := range ms {
 					if strings.HasPrefix(m, "fresh:") {
-						// the loop writes this array only at objects allocated by this function: objects that existed at
-						// function entry keep their contents (framed havoc)
+						// the loop writes this array only at objects allocated by this function (the store's target is literally an
+						// allocation of this function): either one made before the loop was entered - one of ownRefs - or one made
+						// inside the loop, which lies beyond the frontier. Every other object that exists when the loop is entered
+						// keeps its contents (framed havoc); this includes objects allocated by earlier iterations of an enclosing loop.
 						name := m[len("fresh:"):]
 						if mods[name] {
 							continue
@@ -580,9 +602,7 @@ func (fr *Frame) exec(st *State, g *Term) []retInfo {
 						}
 						pre := c.heapGet(bst, name)
 						nv := c.heapHavoc(bst, name)
-						a0 := sanitize("$alloc") + "@0"
-						c.declare(a0, SInt)
-						c.assume(mk(SBool, fmt.Sprintf("(forall ((fr Int)) (! (=> (<= fr %s) (= (select %s fr) (select %s fr))) :pattern ((select %s fr))))", a0, nv.S, pre.S, nv.S)))
+						c.assume(mk(SBool, fmt.Sprintf("(forall ((fr Int)) (! (=> (and (<= fr %s)%s) (= (select %s fr) (select %s fr))) :pattern ((select %s fr))))", allocHead.S, notOwn, nv.S, pre.S, nv.S)))
 						continue
 					}
 					if _, ok := c.heapSorts[m]; !ok {
